@@ -34,6 +34,45 @@ import (
 type parser struct {
 	toks []string
 	pos  int
+	errs map[string]error // Go errors of this case, by identity: the values of one case share them
+}
+
+// chainError builds the Go error of a token E<r>=<id>/<hex base message>[/<hex prefix>]*: a base error created with
+// errors.New, wrapped once per prefix with fmt.Errorf("<prefix>: %w", inner).  Within one case, the same id and base message
+// give the SAME base error object (as a sentinel does), and the same prefixes over it the same wrapper objects; another id
+// gives other objects that may carry the same message.
+func (p *parser) chainError(spec string) (error, error) {
+	parts := strings.Split(spec, "/")
+	if len(parts) < 2 {
+		return nil, fmt.Errorf("bad error chain %q", spec)
+	}
+	if p.errs == nil {
+		p.errs = map[string]error{}
+	}
+	key := parts[0] + "/" + parts[1]
+	cur, ok := p.errs[key]
+	if !ok {
+		b, err := unhex(parts[1])
+		if err != nil {
+			return nil, err
+		}
+		cur = errors.New(string(b))
+		p.errs[key] = cur
+	}
+	for _, px := range parts[2:] {
+		key += "/" + px
+		w, ok := p.errs[key]
+		if !ok {
+			b, err := unhex(px)
+			if err != nil {
+				return nil, err
+			}
+			w = fmt.Errorf("%s: %w", string(b), cur)
+			p.errs[key] = w
+		}
+		cur = w
+	}
+	return cur, nil
 }
 
 func (p *parser) next() (string, error) {
@@ -50,6 +89,7 @@ func unhex(s string) ([]byte, error) { return hex.DecodeString(s) }
 // parseValue reads one value:
 //
 //	n | t | f | i<dec> | d<16 hex digits of the IEEE bits> | y<dec> | s=<hex> | b=<hex> | e0=<hex> | e1=<hex>
+//	E<r>=<id>/<hex base>[/<hex prefix>]* (an error with a chain of wrapped errors, see chainError)
 //	L<k> v1..vk | M<k> (k=<hex> v)* | S<k> v1..vk
 func (p *parser) parseValue() (object.Object, error) {
 	t, err := p.next()
@@ -99,6 +139,12 @@ func (p *parser) parseValue() (object.Object, error) {
 			return nil, err
 		}
 		return object.NewError(errors.New(string(b))).WithRaised(t[1] == '1'), nil
+	case strings.HasPrefix(t, "E0=") || strings.HasPrefix(t, "E1="):
+		e, err := p.chainError(t[3:])
+		if err != nil {
+			return nil, err
+		}
+		return object.NewError(e).WithRaised(t[1] == '1'), nil
 	case t[0] == 'L' || t[0] == 'S':
 		k, err := strconv.Atoi(t[1:])
 		if err != nil {
